@@ -278,6 +278,40 @@ def r02_7(ctx, rep):
         raise MechanismMissing("R02.7", "no handler removing the database file found")
 
 
+@SPEC.rule(
+    "R02.8",
+    "initialised-flag published last: the per-process set of initialised databases (parse.initialized_dbs) is updated "
+    "only after the integrity check, the structure check and the pruning transaction of that database have completed — "
+    "another thread that sees the flag skips all of them",
+)
+def r02_8(ctx, rep):
+    R = "R02.8"
+    pc, info_s, info_p = _run(ctx, rep)
+    cfg = pc.parse_cfg
+    pubs = []
+    for x in cfg.stmts():
+        t = norm(x.ast)
+        if ("initialized_dbs.add(" in t) or (isinstance(x.ast, ast.Assign) and "initialized_dbs" in norm(x.ast.targets[0]) and norm(x.ast.value) not in ("set()", "{}")):
+            pubs.append(x)
+    if not pubs:
+        raise MechanismMissing(R, "no statement publishing the database in parse.initialized_dbs found")
+    struct = {n.id for n in pc.parse_calls("_check_database_structure")}
+    integ = {e.node.id for e in pc.events("parse", "read") if "INTEGRITY_CHECK" in e.detail.upper()}
+    prune = {e.node.id for e in pc.events("parse", "write") if e.detail.upper().startswith("DELETE")}
+    commits_after_prune = set()
+    for p_ in prune:
+        for e in pc.events("parse", "commit"):
+            if e.node.id in cfg.reachable(p_):
+                commits_after_prune.add(e.node.id)
+    for x in pubs:
+        for what, nodes in (("integrity check", integ), ("structure check", struct), ("pruning transaction committed", commits_after_prune)):
+            w = cfg.path(cfg.entry, x.id, avoid=nodes) if nodes else [cfg.nodes[cfg.entry]]
+            # commits_after_prune: passing ANY commit reachable from the DELETE is required
+            rep.ob(R, SITE_PARSE, "publish `%s` after %s" % (norm(x.ast)[:50], what), w is None,
+                   "the database is marked initialised on a path that has not passed the %s: a concurrent parse() in the same "
+                   "process skips initialisation and works on a database without tables" % what, path=cfg.describe(w) if w else "")
+
+
 # -- seeded variants ---------------------------------------------------------
 from ._mut import delete_stmt_where, replace_const_str, replace_in_func  # noqa: E402
 
@@ -346,6 +380,23 @@ def _m_struct_in_try(mod):
             if isinstance(t, ast.Try) and any(call_name(c) == "os.remove" for h in t.handlers for s_ in h.body for c in calls(s_)):
                 t.body.append(ast.parse("_check_database_structure(conn)").body[0])
                 return True
+        return False
+
+    return mod if replace_in_func(mod, "parse", edit) else None
+
+
+@SPEC.mutant("initialised flag set before the work", PARSER, "R02.8", "publish")
+def _m_pub(mod):
+    def edit(fn):
+        for n in ast.walk(fn):
+            if isinstance(n, ast.Try) and any("integrity_check" in norm(x) for x in n.body):
+                # insert publication right before the integrity try
+                for p_ in ast.walk(fn):
+                    for fld in ("body", "orelse"):
+                        b = getattr(p_, fld, None)
+                        if isinstance(b, list) and n in b:
+                            b.insert(b.index(n), ast.parse("parse.initialized_dbs = {full_db_path}").body[0])
+                            return True
         return False
 
     return mod if replace_in_func(mod, "parse", edit) else None
